@@ -74,6 +74,9 @@ def gas_pool():
     add([("C", 1), ("H", 3), ("O", 1), ("H", 1)]); add([("C", 1), ("H", 3), ("O", 1), ("H", 2)], 1)
     add([("H", 1), ("C", 1), ("O", 1), ("O", 1), ("H", 1)]); add([("C", 1), ("H", 3), ("C", 1), ("N", 1)])
     add([("C", 1), ("H", 3), ("O", 1), ("C", 1), ("H", 3)])
+    # long chains: two-digit counts
+    add([("C", 10)]); add([("C", 11)]); add([("C", 12)], 1); add([("H", 1), ("C", 11), ("N", 1)]); add([("C", 11), ("H", 1)])
+    add([("C", 6), ("H", 14)]); add([("C", 24), ("H", 12)])
     return P
 
 
